@@ -440,47 +440,49 @@ func c08GoHelpers(j *Job, u *JobUnit) error {
 		if svc == nil || svc.NewClient == nil || len(js.Methods) == 0 {
 			continue
 		}
-		m := &js.Methods[0]
-		probe, err := NewMessage(m.In)
-		if err != nil {
-			return err
-		}
-		req := Witness(m.In, Dims(probe.ProtoReflect().Descriptor(), ValueOpts{PathSafe: urlBound(m)}))
-		if req == nil {
-			continue
-		}
-		try := func(level, helper string) {
-			rec := &recRT{}
-			marker := "hv-" + helper
-			co, ko := ClientOpts{}, CallOpts{}
-			if level == "client" {
-				co.Helpers = []KV{{helper, marker}}
-			} else {
-				ko.Helpers = []KV{{helper, marker}}
+		for mi := range js.Methods {
+			m := &js.Methods[mi]
+			probe, err := NewMessage(m.In)
+			if err != nil {
+				return err
 			}
-			var pan any
-			func() {
-				defer func() { pan = recover() }()
-				cl := svc.NewClient("http://verif.test", &http.Client{Transport: rec}, co)
-				cl.Call(context.Background(), m.Name, req, ko)
-			}()
-			var under []string
-			if rec.last != nil {
-				for k, vs := range rec.last.Header {
-					for _, v := range vs {
-						if v == marker {
-							under = append(under, k)
+			req := Witness(m.In, Dims(probe.ProtoReflect().Descriptor(), ValueOpts{PathSafe: urlBound(m)}))
+			if req == nil {
+				continue
+			}
+			try := func(level, helper string) {
+				rec := &recRT{}
+				marker := "hv-" + helper
+				co, ko := ClientOpts{}, CallOpts{}
+				if level == "client" {
+					co.Helpers = []KV{{helper, marker}}
+				} else {
+					ko.Helpers = []KV{{helper, marker}}
+				}
+				var pan any
+				func() {
+					defer func() { pan = recover() }()
+					cl := svc.NewClient("http://verif.test", &http.Client{Transport: rec}, co)
+					cl.Call(context.Background(), m.Name, req, ko)
+				}()
+				var under []string
+				if rec.last != nil {
+					for k, vs := range rec.last.Header {
+						for _, v := range vs {
+							if v == marker {
+								under = append(under, k)
+							}
 						}
 					}
 				}
+				Emit(map[string]any{"k": "gohelper", "unit": u.Name, "cell": u.Cell, "svc": js.Name, "rpc": m.Name, "first": fmt.Sprint(mi == 0), "helper": helper, "level": level, "under": under, "panic": fmt.Sprint(pan)})
 			}
-			Emit(map[string]any{"k": "gohelper", "unit": u.Name, "cell": u.Cell, "svc": js.Name, "helper": helper, "level": level, "under": under, "panic": fmt.Sprint(pan)})
-		}
-		for _, h := range svc.ClientHelpers {
-			try("client", h)
-		}
-		for _, h := range svc.CallHelpers {
-			try("call", h)
+			for _, h := range svc.ClientHelpers {
+				try("client", h)
+			}
+			for _, h := range svc.CallHelpers {
+				try("call", h)
+			}
 		}
 	}
 	return nil
